@@ -241,6 +241,7 @@ def run(chk):
     hunt3_rules(chk, repo)
     hunt4_rules(chk, repo)
     hunt5_rules(chk, repo)
+    round7_rules(chk, repo)
 
 
 def _t(v) -> str:
@@ -368,6 +369,28 @@ def hunt_rules(chk, repo):
     else:
         chk.violation("C14.routedef", ga[0], K.short(ga[0]), 'getattr(router, "add_" + method, None) with add_route() as fallback',
                       f"hdrs.METH_ALL contains {', '.join(lacking)} but UrlDispatcher has no add_{lacking[0].lower()}(): web.route('{lacking[0]}', ...) passes the METH_ALL test and add_routes() dies with AttributeError, while router.add_route('{lacking[0]}', ...) works")
+
+
+def round7_rules(chk, repo):
+    """Rule written after seeding round 7 (seed C14-7): within a resource the route of the request's method comes before the wildcard.
+    add_route() refuses a specific method behind `*`, not `*` behind specific methods (`add_get(path, h)` then `add_view(path, View)`): a
+    lookup that tries the wildcard first hands every method to it."""
+    rs = repo.func(MOD, "Resource.resolve")
+    looks = [x for x in ast.walk(rs.node) if isinstance(x, (ast.BoolOp, ast.Call, ast.IfExp)) and "self._any_route" in norm.raw(x) and "self._routes" in norm.raw(x)]
+    looks = [x for x in looks if not any(y is not x and x in list(ast.walk(y)) for y in looks)]  # outermost
+    if not looks:
+        chk.analysis_error("C14.method.first: the route lookup of Resource.resolve (self._routes / self._any_route) was not found")
+    for x in looks:
+        first_any = False
+        if isinstance(x, ast.BoolOp) and isinstance(x.op, ast.Or):
+            first_any = "self._any_route" in norm.raw(x.values[0]) and "self._routes" not in norm.raw(x.values[0])
+        elif isinstance(x, ast.IfExp):
+            first_any = "self._any_route" in norm.raw(x.test) and "self._routes" not in norm.raw(x.test) and "self._any_route" in norm.raw(x.body)
+        if first_any:
+            chk.violation("C14.method.first", x, K.short(x), "self._routes.get(request.method, self._any_route)",
+                          "the wildcard route is tried before the route of the request's method: on a resource that got `add_get(path, h)` and then `add_view(path, View)` (a `*` route may follow specific ones) GET and HEAD are answered by the view instead of `h` - the method must match, and registration order decides among equals")
+        else:
+            chk.ok("C14.method.first", x, "Resource.resolve(): the route registered for the request's method is looked up first, the wildcard is the fallback")
 
 
 def hunt5_rules(chk, repo):
